@@ -42,18 +42,19 @@ BufAfter(pre, plen) == IF WriteOk(plen) THEN pre + 2 + plen ELSE pre
 (* The mutation plan *)
 Kinds == <<"msg", "fail", "pkt">>          \* wire message | failure message | padded onion failure packet
 Ops == <<"valid", "trunc-1", "trunc", "trunc+1", "len-1", "len+1",
-         "tail-odd", "tail-even", "tail-unsorted", "tail-nonmin", "flip", "raw", "ext-odd">>
+         "tail-odd", "tail-even", "tail-unsorted", "tail-nonmin", "flip", "raw", "ext-odd", "len-max">>
 Poss == <<"-", "head", "mid", "tail", "short", "medium", "long">>
 
 IndexOf(seq, x) == CHOOSE i \in 1..Len(seq) : seq[i] = x
 
-PosOf(op) == CASE op \in {"trunc-1", "trunc", "trunc+1", "flip"} -> {"head", "mid", "tail"}
+\* len-1/len+1: a 2-byte field whose value is the size of the next read; len-max: any 2-byte field := 0xffff
+PosOf(op) == CASE op \in {"trunc-1", "trunc", "trunc+1", "flip", "len-max"} -> {"head", "mid", "tail"}
                [] op \in {"len-1", "len+1"}                      -> {"head", "tail"}
                [] op = "raw"                                     -> {"short", "medium", "long"}
                [] OTHER                                          -> {"-"}
 \* ext-odd: not a byte mutation - the generated VALUE gets one more unknown odd record in its extension
 \* data (canonical position) before it is encoded
-OpsOf(kind) == CASE kind = "pkt"  -> {"valid", "trunc-1", "trunc", "trunc+1", "len-1", "len+1", "flip", "raw"}
+OpsOf(kind) == CASE kind = "pkt"  -> {"valid", "trunc-1", "trunc", "trunc+1", "len-1", "len+1", "flip", "raw", "len-max"}
                  [] kind = "fail" -> {Ops[i] : i \in 1..Len(Ops)} \ {"ext-odd"}
                  [] OTHER         -> {Ops[i] : i \in 1..Len(Ops)}
 TypesOf(kind) == IF kind = "msg" THEN MsgTypes ELSE FailCodes
@@ -77,9 +78,11 @@ KeyLess(a, b) == \E k \in 1..5 : a[k] < b[k] /\ \A j \in 1..(k-1) : a[j] = b[j]
 (*   d2      b2 decoded                             e2   that re-encoded to b3;  fix: b3 = b2          *)
 (*   same    b2 = the input                         veq  decoded value = the generated value           *)
 (*   pan/hang/alloc   panicked, ran over the per-case deadline, bytes allocated by the first decode    *)
-CONSTANT AllocBound
+\* "allocates beyond the message bound": what one decode may allocate is bounded by a constant factor of the
+\* bytes it was given (decoded representations are larger than the wire form) plus a constant
+CONSTANTS AllocFactor, AllocSlack
 
-Totality(o)  == o.pan = 0 /\ o.hang = 0 /\ o.alloc <= AllocBound
+Totality(o)  == o.pan = 0 /\ o.hang = 0 /\ o.alloc <= AllocSlack + AllocFactor * o.ilen
 Bound(o)     == o.e1 = 1 => o.e1len <= MaxMsg
 Fixpoint(o)  == o.d1 = 1 => (o.e1 = 1 /\ o.d2 = 1 /\ o.e2 = 1 /\ o.fix = 1)
 RoundTrip(o) == o.op = "valid" => (o.d1 = 1 /\ o.veq = 1 /\ o.same = 1 /\ o.ilen <= MaxMsg)
